@@ -109,10 +109,11 @@ class Builder:
     def _for_class(self, c):
         m = inspect.getmodule(c)
         if m is self.mod: return self
-        key = (m.__name__, id(self.rng))
-        if key not in Builder._others:
-            Builder._others[key] = Builder(m, self.rng)
-        return Builder._others[key]
+        if m.__name__ not in Builder._others:
+            Builder._others[m.__name__] = Builder(m, self.rng)
+        o = Builder._others[m.__name__]
+        o.rng = self.rng
+        return o
 
     # ---- encoding with the real StreamOut --------------------------------
     def writer(self, out, arg):
